@@ -237,16 +237,34 @@ func c16cases(thorough bool) []c16case {
 		}
 	}
 	genO(nil)
-	for _, typ := range []string{"Add", "Remove"} {
+	// how the stored collections spell their entries: bare IRIs, or a mixture of IRIs, embedded objects
+	// and an embedded Link named by href only
+	contentsEmb := map[string][]interface{}{
+		tOwnedC:  {Emb("Note", x, "content", "stored embedded x"), "https://r9.example/keep", x, Emb("Note", y)},
+		tOwnedO:  {M{"type": "Link", "href": y}, Emb("Note", x), Emb("Note", "https://r9.example/keep2"), x},
+		tForeign: {Emb("Note", x), y}}
+	for _, typ := range []string{"Add", "Remove", "Remove/stored-embedded", "Add/stored-embedded"} {
+		contents := contents
+		if strings.HasSuffix(typ, "/stored-embedded") {
+			typ = strings.TrimSuffix(typ, "/stored-embedded")
+			contents = contentsEmb
+		}
 		for _, ts := range tSeqs {
 			for _, os := range oSeqs {
 				for _, kind := range kinds {
 					typ, ts, os := typ, ts, os
+					if _, isStr := contents[tOwnedC][0].(string); typ == "Add" && !isStr && len(os) > 1 {
+						continue
+					}
 					tl := L{}
 					for _, t := range ts {
 						tl = append(tl, t)
 					}
-					c := c16case{family: strings.ToLower(typ), kind: kind, want: "201", name: fmt.Sprintf("%s objects=%v targets=%v %s", typ, shortVals(os), shortIDs(ts), kind),
+					storedAs := ""
+					if _, isStr := contents[tOwnedC][0].(string); !isStr {
+						storedAs = " stored-entries=embedded"
+					}
+					c := c16case{family: strings.ToLower(typ), kind: kind, want: "201", name: fmt.Sprintf("%s objects=%v targets=%v %s%s", typ, shortVals(os), shortIDs(ts), kind, storedAs),
 						body: Doc(typ, "", "actor", Alice, "object", val1(os), "target", val1(tl), "to", Carol)}
 					c.tweak = func(a *ap.App) {
 						a.PutDoc(Doc("Collection", tOwnedC, "items", L(contents[tOwnedC])))
@@ -357,7 +375,7 @@ func shortVals(l []interface{}) []string {
 func C16(tier string) int {
 	res := NewResult("C16", tier, "exploration")
 	cases := c16cases(res.Thorough())
-	res.Rule = fmt.Sprintf("Update: stored object with each subset of {name, content, summary, an unknown member} x update object assigning each member in {absent, new value, null}; two objects with every pair of independent assignments (81 x 81) and three-object triples; Delete: 1..%d objects of 3 types with/without published/updated, IRI/embedded, model clock; Add/Remove: every sequence of 1..%d objects (IRI/embedded) x every sequence of distinct targets over {owned Collection with duplicates, owned OrderedCollection with duplicates, foreign}; Like and Block with the same object sequences; each type with object/target absent or empty; Social-only and both protocols; every Like / Block and every third other request again with application hooks wrapped around the default callbacks; %d base requests; oracle: a reference model on JSON (merge + null deletion, Tombstone fields, collection edits on owned targets only, liked front insertion, Block undelivered, 400 and unchanged state for missing members)", map[bool]int{false: 2, true: 3}[res.Thorough()], map[bool]int{false: 2, true: 3}[res.Thorough()], len(cases))
+	res.Rule = fmt.Sprintf("Update: stored object with each subset of {name, content, summary, an unknown member} x update object assigning each member in {absent, new value, null}; two objects with every pair of independent assignments (81 x 81) and three-object triples; Delete: 1..%d objects of 3 types with/without published/updated, IRI/embedded, model clock; Add/Remove: every sequence of 1..%d objects (IRI/embedded) x every sequence of distinct targets over {owned Collection with duplicates, owned OrderedCollection with duplicates, foreign}, the stored collections spelling their entries as IRIs or as a mixture of IRIs, embedded objects and a Link named by href; Like and Block with the same object sequences; each type with object/target absent or empty; Social-only and both protocols; every Like / Block and every third other request again with application hooks wrapped around the default callbacks; %d base requests; oracle: a reference model on JSON (merge + null deletion, Tombstone fields, collection edits on owned targets only, liked front insertion, Block undelivered, 400 and unchanged state for missing members)", map[bool]int{false: 2, true: 3}[res.Thorough()], map[bool]int{false: 2, true: 3}[res.Thorough()], len(cases))
 	res.Assumptions = []string{"JSON nulls are looked for inside the activity's object (ActivityPub 6.3.1), which is what the statement's wording names", "the stored copy of the activity and the outbox entry are C05's",
 		"one collection named twice as target is excluded here (C09's known finding)"}
 	var mu sync.Mutex
